@@ -274,4 +274,36 @@ theorem goodPath_segments {S : Schema} (hS : NoEmptyName S) :
     · exact hS ty fd hm (by rw [hn]; exact h.symm)
     · exact ih h
 
+/-! ## Dropping nested paths does not change the projection -/
+
+mutual
+  theorem project_minimal : ∀ (fs : Fields) (ps : List Path), NonNil ps →
+      project (minimal ps) fs = project ps fs
+    | .nil, _, _ => by simp [project]
+    | .cons k v rest, ps, hn => by
+      have ihr := project_minimal rest ps hn
+      rw [project, project, tails_minimal k ps hn, ihr]
+      by_cases h1 : tails k ps = []
+      · simp [h1, minimal]
+      · have h1' : minimal (tails k ps) ≠ [] := fun e => h1 ((minimal_eq_nil_iff _).mp e)
+        by_cases h2 : [] ∈ tails k ps
+        · have h2' := (nil_mem_minimal_iff _).mpr h2
+          simp [h1, h1', h2, h2']
+        · have h2' : ¬ [] ∈ minimal (tails k ps) := fun e => h2 ((nil_mem_minimal_iff _).mp e)
+          have hnt : NonNil (tails k ps) := fun t ht e => h2 (e ▸ ht)
+          simp [h1, h1', h2, h2', projectVal_minimal v (tails k ps) hnt]
+  theorem projectVal_minimal : ∀ (v : Val) (ts : List Path), NonNil ts →
+      projectVal (minimal ts) v = projectVal ts v
+    | .sc _, _, _ => by simp [projectVal]
+    | .scs _, _, _ => by simp [projectVal]
+    | .map _, _, _ => by simp [projectVal]
+    | .msg fs, ts, h => by simp [projectVal, project_minimal fs ts h]
+    | .msgs xs, ts, h => by simp [projectVal, projectMsgs_minimal xs ts h]
+  theorem projectMsgs_minimal : ∀ (xs : Msgs) (ts : List Path), NonNil ts →
+      projectMsgs (minimal ts) xs = projectMsgs ts xs
+    | .nil, _, _ => by simp [projectMsgs]
+    | .cons m rest, ts, h => by
+      simp [projectMsgs, project_minimal m ts h, projectMsgs_minimal rest ts h]
+end
+
 end ScVerif.C06
